@@ -91,6 +91,8 @@ def classify_atom(a):
             return ("bad", a, "invalid")
         return ("real", a, cls)
     if is_identifier(a):
+        if len(a) >= 2 and a[0] in "+-" and a[1] == ".":
+            return ("id", a, "unsupported")       # sign-dot identifiers (+.a): Ruschm commits to a number after a sign and a dot
         return ("id", a, "supported")
     if a in ("+inf.0", "-inf.0", "+nan.0", "-nan.0") or re.match(r"[+-]?(\d|\.)[\d.+\-/eEi@]*$", a) and ("i" in a or "@" in a):
         return ("num", a, "unsupported")          # infinities, NaN, complex
